@@ -168,11 +168,26 @@ def run(c: Check):
                         os.environ.get("VERIF_C01_CHECKER", "check_case"), shard=60)
     c.extra["disagreeing_cases"] = [dict(desc=coq_cases[i]["desc"], ops=coq_cases[i]["ops"],
                                          answers=coq_cases[i]["answers"]) for i in bad[:5]]
+    # the hypothesis of C01_cache_sound_cyclic (csound_c / ginv), evaluated by the model on each exported state
+    inv_cases, seen_exp = [], set()
+    for k in coq_cases:
+        key = json.dumps(k["export"], sort_keys=True)
+        if key not in seen_exp:
+            seen_exp.add(key)
+            inv_cases.append(k)
+    diags = c.nat_shards("inv", HEADER, inv_cases, lambda k: identgen.g_icase(k["export"], [], []), "diag_icase", shard=60)
+    c.extra["states_checked_against_invariant"] = sum(1 for d in diags if d is not None)
+    for i, diag in enumerate(diags):
+        if diag:
+            pairs = list(zip(diag[0::2], diag[1::2]))
+            c.violation("C01:cache-state-unsound" + identgen.selfmark_suffix(inv_cases[i]["desc"], pairs),
+                        "the state of the built graph breaks the invariant of the cache theorems: " + identgen.diag_text(pairs),
+                        dict(desc=inv_cases[i]["desc"], histories=[[]], diagnosis=pairs))
     c.level_assumptions = [
         "SHA-256 is a parameter H of every theorem; the Gallina SHA-256 used to run the model is validated against hashlib by the correspondence itself",
         "CPython's struct.pack, str.encode('utf-8'), sorted behave as documented; class tables (flags, defaults) are read off the real ObjectType/Argument objects",
         "other processes / hash seeds are sampled on the implementation side (2 seeds per run), not proved about CPython",
-        "cache soundness is proved for acyclic graphs and all histories; for cyclic graphs under the stated flag hypothesis, validated per generated graph by the correspondence run",
+        "cache soundness is proved for all graphs (cycles included) and all histories from any state satisfying csound_c; that hypothesis is evaluated (inv_icase) on every exported state",
     ]
 
 
